@@ -18,12 +18,12 @@ func printNode returns (err)
   ensures @sink [C17] BufStep(payload(output))
   // no child is dropped: at least one row per child, and a child whose subtree is not joined into its row is
   // followed by the rows of ITS children
-  ensures @a-row-per-child [C03] err == nil ==> prLen >= old(prLen) + len(node.Children)
+  ensures @a-row-per-child [C03 C12] err == nil ==> prLen >= old(prLen) + len(node.Children)
   loop 1 {
     invariant @inv node == old(node) && output == old(output) && level == old(level) && collapseLast == old(collapseLast) && BufStep(payload(output))
     invariant @keys forall p int :: {#coll[p]} 0 <= p && p < len(#coll) ==> #coll[p] in node.Children
     invariant @rows prLen >= old(prLen) + #i && len(#coll) == len(node.Children)
-    end { assert @subtree-follows [C03] prLen >= at(loop1, prLen) + 1 + (if collapseLast && len(child.Children) == 1 then 0 else len(child.Children)) }
+    end { assert @subtree-follows [C03 C12] prLen >= at(loop1, prLen) + 1 + (if collapseLast && len(child.Children) == 1 then 0 else len(child.Children)) }
   }
   // --collapse-last: a joined "parent/child" line replaces the subtree only if that subtree is exactly one leaf
   // (the second Fprintf of the loop body is the joined line, after which the subtree is skipped): the child has exactly
@@ -33,10 +33,10 @@ func printNode returns (err)
   }
   // every child (in Keys() order) gets exactly ONE row, printed before its subtree, showing the child's own total and
   // (when it is not joined with its sole leaf) its own name; nothing else is printed in between
-  ghost after call 1 Fprintf { assert @leaf-row [C03] prLen == at(loop1, prLen) + 1 && PrintedF(prLen - 1, 0, child.Total) && PrintedStr(prLen - 1, 2, child.Name) }
-  ghost after call 2 Fprintf { assert @joined-row [C03] prLen == at(loop1, prLen) + 1 && PrintedF(prLen - 1, 0, child.Total) }
-  ghost after call 3 Fprintf { assert @branch-row [C03] prLen == at(loop1, prLen) + 1 && PrintedF(prLen - 1, 0, child.Total) && PrintedStr(prLen - 1, 2, child.Name) }
-  ghost before call 1 printNode { assert @row-before-subtree [C03] prLen == at(loop1, prLen) + 1 && #arg0 == child && #arg1 == level + 1 }
+  ghost after call 1 Fprintf { assert @leaf-row [C03 C12] prLen == at(loop1, prLen) + 1 && PrintedF(prLen - 1, 0, child.Total) && PrintedStr(prLen - 1, 2, child.Name) }
+  ghost after call 2 Fprintf { assert @joined-row [C03 C12] prLen == at(loop1, prLen) + 1 && PrintedF(prLen - 1, 0, child.Total) }
+  ghost after call 3 Fprintf { assert @branch-row [C03 C12] prLen == at(loop1, prLen) + 1 && PrintedF(prLen - 1, 0, child.Total) && PrintedStr(prLen - 1, 2, child.Name) }
+  ghost before call 1 printNode { assert @row-before-subtree [C03 C12] prLen == at(loop1, prLen) + 1 && #arg0 == child && #arg1 == level + 1 }
 
 // getJump returns the names along a sole-branch chain - but only if the chain ends in a leaf: a non-empty jump
 // means the whole subtree below the node IS that chain, so printing the joined path and skipping the subtree drops
@@ -60,18 +60,18 @@ func printNodeCollapsed returns (err)
   modifies ghost(bufSticky, sinkFailed, sinkPend, prLen, prSink, prArg, prArgs, jlen)
   ensures @sink [C17] BufStep(payload(output))
   ensures @reports-loss [C17] err == nil ==> bufSticky[payload(output)] == old(bufSticky[payload(output)])
-  ensures @a-row-per-child [C03] err == nil ==> prLen >= old(prLen) + len(node.Children)
+  ensures @a-row-per-child [C03 C12] err == nil ==> prLen >= old(prLen) + len(node.Children)
   loop 1 {
     invariant @inv node == old(node) && output == old(output) && level == old(level) && BufStep(payload(output)) && bufSticky[payload(output)] == old(bufSticky[payload(output)])
     invariant @keys forall p int :: {#coll[p]} 0 <= p && p < len(#coll) ==> #coll[p] in node.Children
     invariant @rows prLen >= old(prLen) + #i && len(#coll) == len(node.Children)
-    end { assert @subtree-follows [C03] len(jump) == 0 ==> prLen >= at(loop1, prLen) + 1 + len(child.Children) }
+    end { assert @subtree-follows [C03 C12] len(jump) == 0 ==> prLen >= at(loop1, prLen) + 1 + len(child.Children) }
   }
   // one row per child with the child's total: the joined path when the subtree is a chain (then the subtree is
   // skipped - see getJump), else the child's own name followed by its subtree
-  ghost after call 1 Fprintf { assert @jump-row [C03] prLen == at(loop1, prLen) + 1 && PrintedF(prLen - 1, 0, child.Total) && len(jump) > 0 }
-  ghost after call 2 Fprintf { assert @branch-row [C03] prLen == at(loop1, prLen) + 1 && PrintedF(prLen - 1, 0, child.Total) && PrintedStr(prLen - 1, 2, child.Name) && len(jump) == 0 }
-  ghost before call 1 printNodeCollapsed { assert @row-before-subtree [C03] prLen == at(loop1, prLen) + 1 && #arg0 == child && #arg1 == level + 1 }
+  ghost after call 1 Fprintf { assert @jump-row [C03 C12] prLen == at(loop1, prLen) + 1 && PrintedF(prLen - 1, 0, child.Total) && len(jump) > 0 }
+  ghost after call 2 Fprintf { assert @branch-row [C03 C12] prLen == at(loop1, prLen) + 1 && PrintedF(prLen - 1, 0, child.Total) && PrintedStr(prLen - 1, 2, child.Name) && len(jump) == 0 }
+  ghost before call 1 printNodeCollapsed { assert @row-before-subtree [C03 C12] prLen == at(loop1, prLen) + 1 && #arg0 == child && #arg1 == level + 1 }
 
 // ---------------------------------------------------------------------------------------------
 // the three balance reporters: one tree for the whole walk, printed in Flush
@@ -102,7 +102,7 @@ func (*balanceReporter).Process returns (err)
   let A0 := adLen
   let E0 := elems(ln.Elements)
   let N0 := len(ln.Elements)
-  ensures @adds-the-entries [C03] adLen == A0 + N0 && (forall k int :: {adName[k]} A0 <= k && k < A0 + N0 ==> adName[k] == E0[k - A0].Name && adVal[k] == E0[k - A0].Value && adSep[k] == "/" && adRoot[k] == r.root)
+  ensures @adds-the-entries [C03 C12] adLen == A0 + N0 && (forall k int :: {adName[k]} A0 <= k && k < A0 + N0 ==> adName[k] == E0[k - A0].Name && adVal[k] == E0[k - A0].Value && adSep[k] == "/" && adRoot[k] == r.root)
   ensures @earlier-calls-kept [C03] forall k int :: {adName[k]} 0 <= k && k < A0 ==> adName[k] == old(adName[k]) && adVal[k] == old(adVal[k]) && adSep[k] == old(adSep[k]) && adRoot[k] == old(adRoot[k])
   loop 1 {
     invariant @adds adLen == A0 + #i && elems(ln.Elements) == E0 && len(ln.Elements) == N0 && (forall k int :: {adName[k]} A0 <= k && k < A0 + #i ==> adName[k] == E0[k - A0].Name && adVal[k] == E0[k - A0].Value && adSep[k] == "/" && adRoot[k] == r.root)
@@ -140,7 +140,7 @@ func (*balanceReporterCollapsed).Process returns (err)
   let A0 := adLen
   let E0 := elems(ln.Elements)
   let N0 := len(ln.Elements)
-  ensures @adds-the-entries [C03] adLen == A0 + N0 && (forall k int :: {adName[k]} A0 <= k && k < A0 + N0 ==> adName[k] == E0[k - A0].Name && adVal[k] == E0[k - A0].Value && adSep[k] == "/" && adRoot[k] == r.root)
+  ensures @adds-the-entries [C03 C12] adLen == A0 + N0 && (forall k int :: {adName[k]} A0 <= k && k < A0 + N0 ==> adName[k] == E0[k - A0].Name && adVal[k] == E0[k - A0].Value && adSep[k] == "/" && adRoot[k] == r.root)
   ensures @earlier-calls-kept [C03] forall k int :: {adName[k]} 0 <= k && k < A0 ==> adName[k] == old(adName[k]) && adVal[k] == old(adVal[k]) && adSep[k] == old(adSep[k]) && adRoot[k] == old(adRoot[k])
   loop 1 {
     invariant @adds adLen == A0 + #i && elems(ln.Elements) == E0 && len(ln.Elements) == N0 && (forall k int :: {adName[k]} A0 <= k && k < A0 + #i ==> adName[k] == E0[k - A0].Name && adVal[k] == E0[k - A0].Value && adSep[k] == "/" && adRoot[k] == r.root)
@@ -184,7 +184,7 @@ func (*balanceSingleReporter).Process returns (err)
   // the calls add up to the growth of the total (each call's value is asserted where it is made: the food's quantity
   // times its resolved amount of the element, or the quantity itself when the food is the element)
   let A0 := adLen
-  ensures @tree-gets-the-total [C03 C07] adLen >= A0 && r.total == T0 + SumVals(adVal, A0, adLen - A0)
+  ensures @tree-gets-the-total [C03 C07 C12] adLen >= A0 && r.total == T0 + SumVals(adVal, A0, adLen - A0)
   ensures @adds-below-root [C03] forall k int :: {adRoot[k]} A0 <= k && k < adLen ==> adRoot[k] == r.root && adSep[k] == "/"
   ensures @earlier-calls-kept [C03] forall k int :: {adName[k]} 0 <= k && k < A0 ==> adName[k] == old(adName[k]) && adVal[k] == old(adVal[k]) && adSep[k] == old(adSep[k]) && adRoot[k] == old(adRoot[k])
   ghost before call 1 AddDeep { assert @resolved-amount [C03] #arg0 == r.root && #arg1.Name == el.Name && #arg1.Value == repl.Value * el.Value && #arg2 == "/" }
